@@ -80,7 +80,7 @@ def build_request(commands, caps, pack: bytes | None) -> bytes:
     out = []
     for i, (old, new, name) in enumerate(commands):
         line = old + b" " + new + b" " + name
-        if i == 0:
+        if i == 0 and caps:
             line += b"\0" + b" ".join(caps)
         out.append(pkt(line + b"\n"))
     out.append(FLUSH)
